@@ -4,10 +4,12 @@ mod bk;
 mod chunker;
 mod common;
 mod ingest;
+mod matchwalk;
 mod members;
 mod poolstress;
 mod sim;
 mod subrace;
+mod updwalk;
 mod syncneeds;
 
 fn main() {
@@ -33,6 +35,8 @@ fn main() {
             }
             "pool-stress" => poolstress::run(args[2].parse().unwrap(), args[3].parse().unwrap(), &args[4]).await,
             "sub-race" => subrace::run(args[2].parse().unwrap(), args[3].parse().unwrap(), args[4] == "1", &args[5]).await,
+            "updates-walk" => updwalk::run(args[2].parse().unwrap(), args[3].parse().unwrap(), args[4].parse().unwrap(), &args[5]).await,
+            "matcher-walk" => matchwalk::run(args[2].parse().unwrap(), &args[3], args[4].parse().unwrap(), &args[5]).await,
             "sim-replay" => sim::run_replay(&args[2], &args[3]).await,
             "replay-members" => members::run(&args[2]),
             "replay-chunker" => chunker::run_chunker(&args[2]),
